@@ -111,6 +111,18 @@ func hasherOf(tab []uint64) func(int) uint64 {
 	return func(k int) uint64 { return tab[k] }
 }
 
+// yieldingHasher: the hasher runs at the start of every Map operation, before the shard is locked; yielding
+// there makes the operations of different goroutines overlap even when the machine is busy.
+func yieldingHasher(tab []uint64) func(int) uint64 {
+	var n atomic.Uint64
+	return func(k int) uint64 {
+		if x := n.Add(0x9e3779b97f4a7c15); (x>>33)%3 == 0 {
+			runtime.Gosched()
+		}
+		return tab[k]
+	}
+}
+
 // ---------------------------------------------------------------------------------------------
 // sequential Map
 
@@ -278,15 +290,12 @@ func oracleSeq(c *lib.Ctx, sc *SeqCase) {
 
 func coqN(x int) string { return lib.N(uint64(x)) }
 
-func coqFlags(fl []bool, with bool) string {
-	if !with {
-		return "None"
-	}
+func coqFlags(fl []bool) string {
 	items := make([]string, len(fl))
 	for i, b := range fl {
 		items[i] = lib.Bool(b)
 	}
-	return lib.Some(lib.List(items))
+	return lib.List(items)
 }
 
 func coqNs(xs []int) string {
@@ -297,34 +306,34 @@ func coqNs(xs []int) string {
 	return lib.List(items)
 }
 
-// coqMapStep prints one observed step of a Map[int,int] history.
-func coqMapStep(o Op, r Res, flags bool) string {
-	var op, res string
+// coqMapStep prints one observed step of a Map[int,int] history (Model.C15.mstep and the closed flags).
+func coqMapStep(o Op, r Res) string {
+	var st string
 	switch o.Op {
 	case "add":
-		op, res = lib.App("AAdd", coqN(o.K), coqN(o.V)), lib.App("ABool", lib.Bool(r.B))
+		st = lib.App("MAdd", coqN(o.K), coqN(o.V), lib.Bool(r.B))
 	case "addorget":
-		op, res = lib.App("AAddOrGet", coqN(o.K), coqN(o.V)), lib.App("ALazy", coqN(r.V), lib.Bool(r.B))
+		st = lib.App("MAddOrGet", coqN(o.K), coqN(o.V), coqN(r.V), lib.Bool(r.B))
 	case "set":
-		op, res = lib.App("ASet", coqN(o.K), coqN(o.V)), "AUnit"
+		st = lib.App("MSet", coqN(o.K), coqN(o.V))
 	case "get":
-		op, res = lib.App("AGet", coqN(o.K)), lib.App("AVal", coqN(r.V))
+		st = lib.App("MGet", coqN(o.K), coqN(r.V))
 	case "getorwait":
 		ch := "None"
 		if r.Ch >= 0 {
 			ch = lib.Some(coqN(r.Ch))
 		}
-		op, res = lib.App("AGetOrWait", coqN(o.K)), lib.App("AWait", "("+coqN(r.V)+", "+ch+", "+lib.Bool(r.B)+")")
+		st = lib.App("MWait", coqN(o.K), coqN(r.V), ch, lib.Bool(r.B))
 	case "contains":
-		op, res = lib.App("AContains", coqN(o.K)), lib.App("ABool", lib.Bool(r.B))
+		st = lib.App("MContains", coqN(o.K), lib.Bool(r.B))
 	case "values":
-		op, res = "AValues", lib.App("AVals", coqNs(r.Vals))
+		st = lib.App("MValues", coqNs(r.Vals))
 	case "valuesshard":
-		op, res = lib.App("AValuesShard", coqN(o.K)), lib.App("AVals", coqNs(r.Vals))
+		st = lib.App("MValuesShard", coqN(o.K), coqNs(r.Vals))
 	default:
 		panic("coqMapStep " + o.Op)
 	}
-	return "(" + op + ", " + res + ", " + coqFlags(r.Closed, flags) + ")"
+	return lib.Pair(st, coqFlags(r.Closed))
 }
 
 func coqShards(hash []uint64, nsh int) string {
@@ -338,9 +347,9 @@ func coqShards(hash []uint64, nsh int) string {
 func coqMapCase(sc *SeqCase, flags bool) string {
 	steps := make([]string, len(sc.Ops))
 	for i := range sc.Ops {
-		steps[i] = coqMapStep(sc.Ops[i], sc.Res[i], flags)
+		steps[i] = coqMapStep(sc.Ops[i], sc.Res[i])
 	}
-	return lib.App("CMap", lib.Nat(sc.Nsh), coqShards(sc.Hash, sc.Nsh), lib.List(steps))
+	return lib.App("CMap", lib.Nat(sc.Nsh), coqShards(sc.Hash, sc.Nsh), lib.Bool(flags), lib.List(steps))
 }
 
 func genHash(r *lib.Rng, nkeys, nsh int) []uint64 {
@@ -538,32 +547,26 @@ func oracleErrSeq(c *lib.Ctx, sc *SeqCase) {
 	}
 }
 
-func coqErrV(e, v int) string { return "(" + coqN(e) + ", " + coqN(v) + ")" }
-
 func coqErrStep(o Op, r Res) string {
-	var op, res string
 	switch o.Op {
 	case "add":
-		op, res = lib.App("AAdd", coqN(o.K), coqErrV(0, o.V)), lib.App("ABool", lib.Bool(r.B))
+		return lib.App("EAdd", coqN(o.K), coqN(o.V), lib.Bool(r.B))
 	case "addorget":
-		op, res = lib.App("AAddOrGet", coqN(o.K), coqErrV(0, o.V)), lib.App("ALazy", coqErrV(r.E, r.V), lib.Bool(r.B))
+		return lib.App("EAddOrGet", coqN(o.K), coqN(o.V), coqN(r.E), coqN(r.V), lib.Bool(r.B))
 	case "set":
-		op, res = lib.App("ASet", coqN(o.K), coqErrV(0, o.V)), "AUnit"
+		return lib.App("ESet", coqN(o.K), coqN(o.V))
 	case "seterror":
-		op, res = lib.App("ASet", coqN(o.K), coqErrV(o.E, 0)), "AUnit"
+		return lib.App("ESetError", coqN(o.K), coqN(o.E))
 	case "get":
-		op, res = lib.App("AGet", coqN(o.K)), lib.App("AVal", coqErrV(r.E, r.V))
+		return lib.App("EGet", coqN(o.K), coqN(r.E), coqN(r.V))
 	case "getorset":
-		op = lib.App("AGetOrSet", coqN(o.K), coqErrV(o.E, o.V))
-		if r.Blocked {
-			res = "ABlocked"
-		} else {
-			res = lib.App("AGos", coqErrV(r.E, r.V), lib.Bool(r.B))
+		res := "None"
+		if !r.Blocked {
+			res = lib.Some("(" + coqN(r.E) + ", " + coqN(r.V) + ", " + lib.Bool(r.B) + ")")
 		}
-	default:
-		panic("coqErrStep " + o.Op)
+		return lib.App("EGetOrSet", coqN(o.K), coqN(o.E), coqN(o.V), res)
 	}
-	return "(" + op + ", " + res + ", None)"
+	panic("coqErrStep " + o.Op)
 }
 
 func coqErrCase(sc *SeqCase) string {
@@ -647,7 +650,7 @@ func jitter(r *lib.Rng) {
 // runConc runs the programs concurrently on a fresh map and returns the recorded history plus the
 // failures of the wake-up checks.
 func runConc(cc *ConcCase, seed uint64) (hist []HOp, fails [][2]string) {
-	m := cmap.New[int, int](uint64(cc.Nsh), hasherOf(cc.Hash))
+	m := cmap.New[int, int](uint64(cc.Nsh), yieldingHasher(cc.Hash))
 	var clock atomic.Int64
 	var mu sync.Mutex
 	record := func(h HOp) {
@@ -698,7 +701,7 @@ func runConc(cc *ConcCase, seed uint64) (hist []HOp, fails [][2]string) {
 			r := lib.NewRng(seed*1000003 + uint64(g))
 			arrived.Add(1)
 			for i := 0; arrived.Load() < int64(n); i++ {
-				if i > 20000 {
+				if i > 1500000 {
 					runtime.Gosched()
 				}
 			}
